@@ -1080,6 +1080,8 @@ func (ex *Exec) instr(in ssa.Instruction) {
 				if base.P == nil && base.T != "" {
 					args := []TV{{T: base.T, Ty: fa.X.Type()}, {T: ex.val(i.Val).T, Ty: i.Val.Type()}}
 					ex.callSiteClauses("store_"+T+"_"+f, -1, "before", args, nil, i.Pos(), i)
+					// and, for "any field of T":  @before call store_T[*]
+					ex.callSiteClauses("store_"+T, -1, "before", args, nil, i.Pos(), i)
 				}
 			}
 		}
